@@ -213,3 +213,56 @@ Proof.
       * rewrite E2. right. split; [reflexivity|]. apply Exists_cons_tl. exact Ex.
     + right. split; [reflexivity|]. apply Exists_cons_hd. exact E.
 Qed.
+
+(* ---------------- gauge covariance of the per-site update (C04) ---------------- *)
+Lemma z_code_cov (U g psi : RC) gamma :
+  z_code OpsR U (cmul OpsR g psi) gamma = cmul OpsR g (z_code OpsR U psi gamma).
+Proof.
+  destruct U as [ur ui], g as [gr gi], psi as [pr pi_].
+  unfold z_code, cmul, cdivr, cscale. cbn. f_equal; field.
+Qed.
+
+Lemma w_code_cov (U g psi lap : RC) abs2 eps gamma u dt :
+  w_code OpsR U (cmul OpsR g psi) abs2 eps gamma u dt (cmul OpsR g lap)
+  = cmul OpsR g (w_code OpsR U psi abs2 eps gamma u dt lap).
+Proof.
+  unfold w_code. rewrite z_code_cov.
+  destruct (z_code OpsR U psi gamma) as [zr zi].
+  destruct U as [ur ui], g as [gr gi], psi as [pr pi_], lap as [lr li].
+  unfold cmul, cadd, cscale. cbn. f_equal; ring.
+Qed.
+
+Lemma finish_cov (g z w : RC) :
+  cabs2 OpsR g = 1 ->
+  site_finish OpsR (cmul OpsR g z) (cmul OpsR g w)
+  = match site_finish OpsR z w with Some (x, p) => Some (x, cmul OpsR g p) | None => None end.
+Proof.
+  intros Hg. destruct g as [gr gi], z as [zr zi], w as [wr wi].
+  unfold cabs2 in Hg. cbn in Hg.
+  assert (Ec : re (cmul OpsR (gr,gi) (wr,wi)) * re (cmul OpsR (gr,gi) (zr,zi))
+             + im (cmul OpsR (gr,gi) (wr,wi)) * im (cmul OpsR (gr,gi) (zr,zi)) = wr*zr + wi*zi).
+  { unfold cmul. cbn. transitivity ((gr*gr+gi*gi)*(wr*zr+wi*zi)); [ring|rewrite Hg; ring]. }
+  assert (Ez : cx_abs2 (cmul OpsR (gr,gi) (zr,zi)) = zr*zr+zi*zi).
+  { unfold cx_abs2, cabs2, cmul. cbn. transitivity ((gr*gr+gi*gi)*(zr*zr+zi*zi)); [ring|rewrite Hg; ring]. }
+  assert (Ew : cx_abs2 (cmul OpsR (gr,gi) (wr,wi)) = wr*wr+wi*wi).
+  { unfold cx_abs2, cabs2, cmul. cbn. transitivity ((gr*gr+gi*gi)*(wr*wr+wi*wi)); [ring|rewrite Hg; ring]. }
+  assert (ED : Dzw (cmul OpsR (gr,gi) (zr,zi)) (cmul OpsR (gr,gi) (wr,wi)) = Dzw (zr,zi) (wr,wi)).
+  { unfold Dzw. rewrite Ec. unfold cx_abs2, cabs2 in Ez, Ew. cbn [o_add o_mul OpsR] in Ez, Ew.
+    rewrite Ez, Ew. cbn. reflexivity. }
+  destruct (finish_cases (cmul OpsR (gr,gi) (zr,zi)) (cmul OpsR (gr,gi) (wr,wi))) as [[HD E]|[HD E]];
+  destruct (finish_cases (zr,zi) (wr,wi)) as [[HD' E']|[HD' E']]; rewrite E, E'; rewrite ED in *; try lra.
+  - reflexivity.
+  - rewrite Ec, Ew. cbn [re im fst snd]. unfold cx_abs2, cabs2. cbn [re im fst snd o_add o_mul OpsR].
+    set (x := 2 * (wr * wr + wi * wi) / (2 * (wr * zr + wi * zi) + 1 + sqrt (Dzw (zr, zi) (wr, wi)))).
+    apply f_equal. apply f_equal2; [reflexivity|].
+    unfold csub, cscale, cmul. cbn [re im fst snd o_add o_sub o_mul OpsR]. f_equal; ring.
+Qed.
+
+Theorem euler_covariant (U g psi lap : RC) abs2 eps gamma u dt :
+  cabs2 OpsR g = 1 ->
+  site_update OpsR U (cmul OpsR g psi) abs2 eps gamma u dt (cmul OpsR g lap)
+  = match site_update OpsR U psi abs2 eps gamma u dt lap with
+    | Some (x, p) => Some (x, cmul OpsR g p) | None => None end.
+Proof.
+  intros Hg. unfold site_update. rewrite z_code_cov, w_code_cov. apply finish_cov. exact Hg.
+Qed.
